@@ -377,11 +377,21 @@ class Tdf:
         ):
             raise IOError("All unused slots must be at the end of the file")
 
-        # new entry with the offset of that unused slot
+        # the new block goes right behind the last block stored in the file. (In a
+        # compact file that is the offset the unused slot carries; in files from other
+        # software the offset of an unused slot can be anything.)
+        endOfData = max(
+            [64 + 288 * len(self.entries)]
+            + [
+                entry.offset + entry.size
+                for entry in self.entries
+                if entry.type != BlockType.unusedSlot
+            ]
+        )
         new_entry = TdfEntry(
             type=newBlock.type,
             format=newBlock.format.value,
-            offset=self.entries[unusedBlockPos].offset,
+            offset=endOfData,
             size=newBlock.nBytes,
             creation_date=newBlock.creation_date,
             last_modification_date=newBlock.last_modification_date,
